@@ -31,7 +31,7 @@ def indexStrides (N r : Nat) : List (List Nat) :=
   let arr := List.range N
   let w : Int := 2 * r + 1
   let ext := sliceFrom arr (fdiv (-w) 2 + 1) ++ arr ++ sliceTo arr (fdiv w 2)
-  (List.range (ext.length - (2 * r + 1) + 1)).map fun i => (ext.drop i).take (2 * r + 1)
+  (List.range (ext.length + 1 - (2 * r + 1))).map fun i => (ext.drop i).take (2 * r + 1)
 
 /-- `cells[idx]` for a list of (valid) indices. -/
 def gather [Inhabited α] (cells : List α) (idx : List Nat) : List α := idx.map fun i => cells[i]!
